@@ -229,3 +229,57 @@ def own_membership_guard(node, stop, model):
         child = p
         p = getattr(p, "_parent", None)
     return out
+
+
+def pure_chain(node):
+    """a.b[c].d with constant or plain-name subscripts"""
+    if isinstance(node, ast.Name):
+        return True
+    if isinstance(node, ast.Attribute):
+        return pure_chain(node.value)
+    if isinstance(node, ast.Subscript) and not isinstance(node.slice, ast.Slice):
+        s = node.slice
+        simple = isinstance(s, (ast.Constant, ast.Name)) or (isinstance(s, ast.UnaryOp) and isinstance(s.operand, ast.Constant))
+        return simple and pure_chain(node.value)
+    return False
+
+
+class Aliases:
+    """Locals that merely name an attribute chain (path = self._path, first = self._segments[0]): canon() spells expressions
+    with the chains written out, so that rules compare what is addressed, not how the local is called."""
+
+    def __init__(self, fn):
+        counts = {}
+        vals = {}
+        for tg, v, n in bindings(fn):
+            if isinstance(tg, ast.Name):
+                counts[tg.id] = counts.get(tg.id, 0) + 1
+                vals[tg.id] = v
+        params = {a.arg for a in fn.args.args} if hasattr(fn, "args") else set()
+        self.map = {k: v for k, v in vals.items() if counts[k] == 1 and k not in params and pure_chain(v) and not isinstance(v, ast.Name)}
+
+    def expand(self, node, depth=0):
+        amap = self.map
+        outer = self
+
+        class T(ast.NodeTransformer):
+            def visit_Name(self, n):
+                if isinstance(n.ctx, ast.Load) and n.id in amap and depth < 4:
+                    return outer.expand(amap[n.id], depth + 1)
+                return n
+
+        from .model import fresh
+        return T().visit(fresh(node))
+
+    def canon(self, node):
+        return ast.unparse(self.expand(node)).replace(" ", "")
+
+
+def split_tuple_assign(stmt):
+    """a, b = x, y  ->  [(a, x), (b, y)] (targets and values pairwise); other assignments -> [(target, value)]"""
+    if isinstance(stmt, ast.Assign) and len(stmt.targets) == 1 and isinstance(stmt.targets[0], ast.Tuple) and isinstance(stmt.value, ast.Tuple) \
+            and len(stmt.targets[0].elts) == len(stmt.value.elts):
+        return list(zip(stmt.targets[0].elts, stmt.value.elts))
+    if isinstance(stmt, ast.Assign) and len(stmt.targets) == 1:
+        return [(stmt.targets[0], stmt.value)]
+    return []
